@@ -19,26 +19,28 @@ Proof.
 Qed.
 
 Lemma read_uchunk_last v c d rest :
+  chunk_fits c ->
   uspan_omitted_count_zero v = false \/ no_one_line_side c ->
   has_prefix s_diff d = true ->
   read_uchunk v (uchunk_lines v c ++ d :: rest) = UUnexpected (norm_chunk c) (d :: rest).
 Proof.
-  intros Hv Hd. destruct (diff_line_head d Hd) as (t & ->).
+  intros (Hf1 & Hf2 & Hf3 & Hf4) Hv Hd. destruct (diff_line_head d Hd) as (t & ->).
   unfold uchunk_lines. cbn [app read_uchunk].
   rewrite fields_uhunk_header. unfold nth_field. cbn [nth].
   replace (read_uchunk_min_fields _ _ _) with false by (unfold read_uchunk_min_fields; reflexivity).
-  rewrite read_uspan_uspan by (destruct Hv as [Hv|[Hv _]]; [left; exact Hv | right; exact Hv]).
-  rewrite read_uspan_uspan by (destruct Hv as [Hv|[_ Hv]]; [left; exact Hv | right; exact Hv]).
-  rewrite read_body_edits. unfold norm_chunk. rewrite <- uchunk_of_ranges. reflexivity.
+  rewrite read_uspan_uspan by (first [assumption | destruct Hv as [Hv|[Hv _]]; [left; exact Hv | right; exact Hv]]).
+  rewrite read_uspan_uspan by (first [assumption | destruct Hv as [Hv|[_ Hv]]; [left; exact Hv | right; exact Hv]]).
+  rewrite read_body_edits. unfold norm_chunk. rewrite <- uchunk_of_ranges by assumption. reflexivity.
 Qed.
 
 Lemma read_git_chunks_all v cs : forall c acc fuel rest,
-  readable v (c :: cs) -> git_stop rest ->
+  ranges_fit (c :: cs) -> readable v (c :: cs) -> git_stop rest ->
   (fuel > length (flat_map (uchunk_lines v) (c :: cs)))%nat ->
   read_git_chunks v fuel (flat_map (uchunk_lines v) (c :: cs) ++ rest) acc
   = ROk (acc ++ unified_normalise (c :: cs), rest).
 Proof.
-  induction cs as [|c' cs IH]; intros c acc fuel rest Hv Hrest Hfuel.
+  induction cs as [|c' cs IH]; intros c acc fuel rest Hfit Hv Hrest Hfuel;
+    (assert (Hfc : chunk_fits c) by (inversion Hfit; assumption)).
   - destruct fuel as [|f]; [lia|].
     assert (Hlen : (length (uchunk_lines v c) >= 1)%nat) by (unfold uchunk_lines; cbn [length]; lia).
     cbn [flat_map] in Hfuel. rewrite app_nil_r in Hfuel.
@@ -47,7 +49,7 @@ Proof.
       by (destruct Hv as [Hv|Hv]; [left; exact Hv | right; inversion Hv; assumption]).
     destruct rest as [|d rest].
     + rewrite app_nil_r. rewrite <- (app_nil_r (uchunk_lines v c)).
-      rewrite read_uchunk_chunk by (first [exact Hc | exact I]).
+      rewrite read_uchunk_chunk by (first [exact Hfc | exact Hc | exact I]).
       destruct f as [|f]; [lia|]. reflexivity.
     + rewrite read_uchunk_last by assumption. reflexivity.
   - destruct fuel as [|f]; [lia|].
@@ -56,10 +58,12 @@ Proof.
     rewrite read_uchunk_chunk.
     + rewrite IH.
       * unfold unified_normalise. cbn [map]. rewrite <- app_assoc. reflexivity.
+      * inversion Hfit; assumption.
       * destruct Hv as [Hv|Hv]; [left; exact Hv | right; inversion Hv; assumption].
       * exact Hrest.
       * change (flat_map (uchunk_lines v) (c :: c' :: cs)) with (uchunk_lines v c ++ flat_map (uchunk_lines v) (c' :: cs)) in Hfuel.
         rewrite app_length in Hfuel. unfold uchunk_lines in Hfuel at 1. cbn [length] in Hfuel. lia.
+    + exact Hfc.
     + destruct Hv as [Hv|Hv]; [left; exact Hv | right; inversion Hv; assumption].
     + cbn. eexists. reflexivity.
 Qed.
@@ -89,7 +93,8 @@ Section Header.
   Definition item_ok (v : variant) (it : git_item) : Prop :=
     has_prefix s_diff (gi_diff it) = true /\
     Forall (fun l => has_prefix s_mmm l = false) (gi_more it) /\
-    info_ok time (Some (gi_info it)) /\ gi_chunks it <> [] /\ readable v (gi_chunks it).
+    info_ok time (Some (gi_info it)) /\ gi_chunks it <> [] /\ readable v (gi_chunks it) /\
+    ranges_fit (gi_chunks it).
 
   Definition item_patch (it : git_item) : patch time :=
     mkPatch (Some (info_back time (gi_info it))) (unified_normalise (gi_chunks it)).
@@ -103,7 +108,7 @@ Section Header.
     induction its as [|it its IH]; intros out fuel Hok Hne Hfuel.
     - destruct fuel; [cbn in Hfuel; lia|]. cbn [flat_map read_git_loop scan_to_prefix map].
       rewrite app_nil_r. destruct out; [destruct Hne; congruence | reflexivity].
-    - inversion Hok as [|? ? (Hd & Hm & Hfi & Hcs & Hv) Hok']; subst.
+    - inversion Hok as [|? ? (Hd & Hm & Hfi & Hcs & Hv & Hfit) Hok']; subst.
       destruct fuel as [|f]; [cbn in Hfuel; lia|].
       assert (Hf : (f > length (flat_map (item_lines v) its))%nat).
       { cbn [flat_map] in Hfuel. rewrite app_length in Hfuel.
@@ -129,7 +134,7 @@ Section Header.
       assert (Hstop : git_stop rest).
       { unfold rest. destruct its as [|it' its']; [exact I|].
         inversion Hok' as [|? ? (Hd' & _) _]; subst. exact Hd'. }
-      rewrite read_git_chunks_all by (first [exact Hv | exact Hstop | rewrite app_length; lia]).
+      rewrite read_git_chunks_all by (first [exact Hfit | exact Hv | exact Hstop | rewrite app_length; lia]).
       cbn [app].
       rewrite IH.
       + rewrite <- app_assoc. cbn [map app]. unfold item_patch at 2. rewrite Ecs. reflexivity.
